@@ -182,6 +182,12 @@ def family_edges(kind, a, b, seed, density):
 def check_generated(case, rec):
     a, b = case['a'], case['b']
     edges = family_edges(case['kind'], a, b, case['seed'], case['density'])
+    if case.get('itype'):
+        # vertex indices as NumPy integer scalars (what np.argwhere / np.nonzero / scipy.sparse hand out), incl. 32-bit ones and
+        # vertex counts beyond 32 / 64
+        T = {'int64': np.int64, 'int32': np.int32, 'intp': np.intp, 'uint16': np.uint16}[case['itype']]
+        edges = [(T(u), T(v)) for (u, v) in edges]
+        rec.label('index_type_' + case['itype'])
     opt, nontriv = judge(a, b, edges)
     rec.label('family_' + case['kind'])
     if len(set(edges)) < len(edges):
@@ -198,7 +204,8 @@ def check_generated(case, rec):
 @st.composite
 def gen_case(draw):
     kind = draw(st.sampled_from(['random', 'random', 'random', 'ladder', 'staircase', 'crown', 'hub', 'empty', 'sparse_chain']))
-    return {'kind': kind, 'a': draw(st.integers(1, 60)), 'b': draw(st.integers(1, 60)),
+    return {'kind': kind, 'a': draw(st.integers(1, 80)), 'b': draw(st.integers(1, 80)),
+            'itype': draw(st.sampled_from([None, None, 'int64', 'int32', 'intp', 'uint16'])),
             'seed': draw(st.integers(0, 2**31 - 1)),
             'density': draw(st.sampled_from([0.0, 0.02, 0.05, 0.1, 0.2, 0.5, 0.8, 1.0]))}
 
@@ -225,7 +232,7 @@ PARTS = [
          doc='all edge sets for all partitions up to 4x4 (quick, two edge orders) / 5x5 (thorough)'),
     Part('families', check_generated, strategy=lambda tier: gen_case(),
          n={'quick': 400, 'thorough': 3000}, workers={'quick': 4, 'thorough': 16},
-         doc='random graphs of all densities and adversarial families up to 60x60'),
+         doc='random graphs of all densities and adversarial families up to 80x80, vertex indices as Python or NumPy integers'),
     Part('edge_lists', check_explicit, strategy=lambda tier: gen_explicit(),
          n={'quick': 400, 'thorough': 8000}, workers={'quick': 4, 'thorough': 16},
          doc='explicit shrinkable edge lists (with duplicates) up to 9x9'),
